@@ -1199,6 +1199,13 @@ var dscCorpus = map[string][]string{
 		"msg 1 reply 0:0:n:- 1:1:n:- | " + dscNM + " 1:1:1:1:-:-",
 		"msg 1 full 0:0:n:- 2:2:n:3 | " + dscNM + " 2:1:2:1:2:4=4 2:2:3:0:-:-",
 	},
+	// minimal witness of the binding defect: both peers bind from their entity [1], peer 1 announces [1] as removed
+	"cascade:binding-other-peer": {
+		"msg 1 reply 0:0:n:- 1:1:n:- | " + dscNM + " 1:1:6:0:-:-",
+		"msg 2 reply 0:0:n:- 1:1:n:- | " + dscNM + " 1:1:6:0:-:-",
+		"bind 1 1 1 1 1", "bind 2 1 1 1 2",
+		"msg 1 partial 1:1:r:- | ",
+	},
 	// cascade with two peers that use identical numbering; peer 1 announces entity [1] as removed
 	"cascade:two-peers": {
 		"msg 1 reply 0:0:n:- 1:1:n:- 2:1:n:- | " + dscNM + " 1:1:6:0:-:- 1:2:1:1:-:1=4 2:1:6:0:-:-",
@@ -1224,7 +1231,7 @@ var dscCorpus = map[string][]string{
 	},
 }
 
-var dscCorpusOrder = []string{"mixed:added-then-removed", "mixed:removed-then-added", "mixed:full", "cascade:two-peers", "nested-repeated-unknown"}
+var dscCorpusOrder = []string{"mixed:added-then-removed", "mixed:removed-then-added", "mixed:full", "cascade:binding-other-peer", "cascade:two-peers", "nested-repeated-unknown"}
 
 // ---------------------------------------------------------------- probes (select the member of the model family)
 
@@ -1262,7 +1269,7 @@ func TestDiscovery(t *testing.T) {
 	defer r.Write()
 	if ops := h.ReplayOps("discovery"); ops != nil {
 		whole := dscProbe(r, "wholeMessage", "C06/mixed-add-remove-notification", dscCorpus["mixed:added-then-removed"])
-		bindent := dscProbe(r, "bindEntityOnly", "C06/cascade-binding-other-peer", dscCorpus["cascade:two-peers"])
+		bindent := dscProbe(r, "bindEntityOnly", "C06/cascade-binding-other-peer", dscCorpus["cascade:binding-other-peer"])
 		d := h.StartDriver("drv_disc", fmt.Sprintf("whole=%d", h.B2i(whole)), fmt.Sprintf("bindent=%d", h.B2i(bindent)))
 		defer d.Close()
 		runDscHistory(r, d, ops, nil)
@@ -1270,7 +1277,7 @@ func TestDiscovery(t *testing.T) {
 	}
 	// probe phase: which member of the family is the tree under test?
 	whole := dscProbe(r, "wholeMessage", "C06/mixed-add-remove-notification", dscCorpus["mixed:added-then-removed"])
-	bindent := dscProbe(r, "bindEntityOnly", "C06/cascade-binding-other-peer", dscCorpus["cascade:two-peers"])
+	bindent := dscProbe(r, "bindEntityOnly", "C06/cascade-binding-other-peer", dscCorpus["cascade:binding-other-peer"])
 	d := h.StartDriver("drv_disc", fmt.Sprintf("whole=%d", h.B2i(whole)), fmt.Sprintf("bindent=%d", h.B2i(bindent)))
 	defer d.Close()
 	if a := d.Ask("nonsense"); a != "bad-op" {
